@@ -186,7 +186,7 @@ InitRef(t, c, s) ==
            ELSE IF ra.k = "ok" THEN rb
            ELSE IF ra.at < rb.at THEN ra
            ELSE IF rb.at < ra.at THEN rb
-           ELSE IRef(ra.at, "err", ra.errs \cup rb.errs)
+           ELSE ra      \* both fail in the same round: the first stage is driven first and its error is the first one
     [] t.o = "fmap_init_err" -> LET r == InitRef(t.a, c, s) IN IRef(r.at, r.k, {MapH(t.id, e) : e \in r.errs})
     [] t.o = "fmap_config"   -> InitRef(t.a, MapC(t.id, c), s)
     [] t.o = "funit_config"  -> InitRef(t.a, "()", s)
